@@ -23,3 +23,47 @@ def luhn_sum(E, D, n):
 
 def luhn_cd(E, D, n):
     return (9 * luhn_sum(E, D, n)) % 10
+
+
+# ---------------------------------------------------------------- 1014 blocking (C03-C05, C09, C11, C17)
+PAD = 0x40
+
+
+def phys(i):
+    """position in the blocked image of payload byte i"""
+    return i + 2 * (i / 1012)
+
+
+def plen(L):
+    """payload bytes contained in the first L bytes of a blocked image (cut anywhere)"""
+    m = L % 1014
+    return 1012 * (L / 1014) + z3.If(m < 1012, m, 1012)
+
+
+def BLK(d, total):
+    """blocked image of payload stream d cut after `total` bytes: payload bytes in place, 0x40 0x40 after every 1012"""
+    def at(p, d=d):
+        pp = I(p)
+        return z3.If(pp % 1014 < 1012, I(d.at(pp - 2 * (pp / 1014))), PAD)
+    return VSeq('bytes', total, at, tag='BLK')
+
+
+def PAYLOAD(c):
+    """what unblocking delivers from file content c (any length, also cut short)"""
+    return VSeq('bytes', plen(c.n), lambda i, c=c: c.at(phys(I(i))), tag='PAYLOAD')
+
+
+def with_fill(d, r):
+    """d followed by r bytes of 0x40"""
+    n = d.n
+    return VSeq('bytes', n + r, lambda i, d=d, n=n: z3.If(I(i) < n, I(d.at(i)), PAD), tag='FILLED')
+
+
+def be32(v):
+    """4-byte big-endian rendering of 0 <= v < 2**32"""
+    return seq_items('bytes', [(v / 256 ** (3 - k)) % 256 for k in range(4)])
+
+
+def be32_value(s, q):
+    """integer encoded by the four bytes of s at offset q"""
+    return ((I(s.at(q)) * 256 + I(s.at(q + 1))) * 256 + I(s.at(q + 2))) * 256 + I(s.at(q + 3))
